@@ -18,7 +18,7 @@ CHECKS = {
    note="Trusts the reference walker/demuxer in vsim/ref (written from ISO/IEC 14496-12, no mp4ff code) and the Go runtime; corpus files plus byte-surgery layout variants are the only file shapes; only contract-legal reader/writer behaviour is injected.",
    technique="deterministic simulation: SimDisk delivery/fault schedules + op histories vs ground-truth bytes, seeded, replayable, minimised"),
 }
-SETUP_TARGETS = "vsim race crop segmenter resegmenter combine"
+SETUP_TARGETS = "vsim race crop segmenter resegmenter combine encrypt decrypt"
 CHECKS["C02"] = dict(level="fault_enumeration", ref="6/C02",
    text="For each sampled node the write-failure points of Encode are enumerated completely (every write op k, every write boundary -1/0/+1 as device-full budget, every slice-writer shortfall d in 1..64) against the first clean encoding as model; histories of Size/Info/Encode/EncodeSW are seeded. Nodes and histories are sampled; fault points per node are enumerated.",
    note="Objects are nodes of decoded corpus files and packager-built productions only; EncodeSW success = nil error and nil accumulated error; objects with separately written (lazy) mdat payload excluded by the library's documented design; reference size walker vsim/ref trusted.",
@@ -44,7 +44,7 @@ CHECKS["C12"] = dict(level="exploration", ref="6/C12",
    note="Pure delimiter modes only (precedence between mixed delimiters is not defined by the statement); reference walker/demuxer vsim/ref trusted; reference_ID and earliest_presentation_time values not constrained by the statement.",
    technique="deterministic simulation: unit-stream state machine driven by a producer log + seekable SimDisk; conservation/order of moof-mdat pairs and index tiling vs independent walk")
 CHECKS["C06"] = dict(level="exploration", ref="6/C06",
-   text="Seeded search over clear single-track productions (real AVC/HEVC/AAC corpus samples and synthetic payloads at the CENC size thresholds), schemes, keys, IV sizes/values incl. counter wrap, foreign boxes in moof/traf, two encryptor flows (decoded vs freshly built objects), and player behaviour: whole stream or separately delivered init, segment order/repeats, decode path, delivery, re-encode mode; oracle = clear sample log read back by an independent demuxer, restored sample entry, multiset of non-protection boxes; third-party encrypted corpus files keep sizes and timing.",
+   text="Seeded search over clear single-track productions (real AVC/HEVC/AAC corpus samples and synthetic payloads at the CENC size thresholds), schemes, keys, IV sizes/values incl. counter wrap, foreign boxes in moof/traf, two encryptor flows (decoded vs freshly built objects), and player behaviour: whole stream or separately delivered init, segment order/repeats, decode path, delivery, re-encode mode; oracle = clear sample log read back by an independent demuxer, restored sample entry, multiset of non-protection boxes; third-party encrypted corpus files keep sizes and timing. Two further worlds run the inner functions of mp4ff-encrypt (encryptFile) and mp4ff-decrypt (decryptFile) between simulated input streams and sinks with read/write faults: success must satisfy the same oracles, nil after a failed read/write or an error without fault is a violation.",
    note="Standard-conformance of the ciphertext is C07 (not decided); single track / single trun per fragment as the API documents; reference demuxer vsim/ref trusted; box order is not demanded (multiset).",
    technique="deterministic simulation: producer -> encryptor -> origin -> player with seeded unit transport (separate init, order, repeats) and delivery; conservation vs clear sample log and box inventory")
 CHECKS["C20"] = dict(level="exploration", ref="6/C20",
